@@ -124,8 +124,9 @@ def _param_only_sorted(prog, fi: FuncInfo, idx: int) -> bool:
                     first = outer.body[0]
                     keyname = A.target_names(outer.target)[:1]
                     t = first.test
-                    if (isinstance(t, ast.Compare) and len(t.ops) == 1 and isinstance(t.ops[0], ast.NotEq) and keyname
-                            and keyname[0] in A.names_in(t.left) and isinstance(t.comparators[0], ast.Name) and t.comparators[0].id.isupper()
+                    sides_ = [t.left, t.comparators[0]] if isinstance(t, ast.Compare) and len(t.ops) == 1 else []
+                    if (sides_ and isinstance(t.ops[0], ast.NotEq) and keyname
+                            and any(keyname[0] in A.names_in(a_) and isinstance(b_, ast.Name) and b_.id.isupper() for a_, b_ in (sides_, sides_[::-1]))
                             and len(first.body) == 1 and isinstance(first.body[0], ast.Continue) and not first.orelse):
                         continue
             return False
